@@ -365,6 +365,9 @@ func (its *PushPullHandler) processSubscribeOrCreate(code pushPullCase) errors.O
 	if its.datatypeDoc == nil { // neither created nor found
 		return errors.PushPullNoDatatypeToSubscribe.New(its.ctx.L(), its.Key)
 	}
+	// whatever DUID the pack carries, the datatype that has been found is the one whose operations are pushed and pulled
+	its.DUID = its.datatypeDoc.DUID
+	its.resPushPullPack.DUID = its.datatypeDoc.DUID
 	return its.initClientInfoWithDatatypeDoc()
 }
 
